@@ -116,6 +116,7 @@ CONFIGS = {
 }
 
 CORPUS = ["Sim1", "Sim2", "Sim3", "Sim4"]
+MODULE_CFLAGS = {"Sim6": ["-include", "NFrame.h"]}
 
 
 def build_program(asn1c, workdir, modname, config, harness_objs, cflags=SAN_CFLAGS, modfile=None, cfgflags=None):
@@ -138,14 +139,15 @@ def build_program(asn1c, workdir, modname, config, harness_objs, cflags=SAN_CFLA
     ok, out = gen_program(asn1c, [modfile], CONFIGS[config] if cfgflags is None else cfgflags, gendir)
     if not ok:
         raise BuildError("asn1c rejected %s (%s):\n%s" % (modfile, config, out[-3000:]))
-    objs = build_runtime(gendir, os.path.join(workdir, "obj-rt-" + tag), cflags)
+    # Sim6's generated headers include each other and only resolve when NFrame.h is entered first (an emitter limitation, C10's territory)
+    objs = build_runtime(gendir, os.path.join(workdir, "obj-rt-" + tag), list(cflags) + MODULE_CFLAGS.get(modname, []))
     tagc = os.path.join(workdir, "tag-" + tag + ".c")
     with open(tagc, "w") as f:
         f.write('const char *sim_program = "%s";\n' % tag)
     objs += compile_many("gcc", [tagc], os.path.join(workdir, "obj-rt-" + tag), ["-O1"])
     # the repository's own stream loop, in-process (per program: it includes the generated directory's copy)
     objs += compile_many("gcc", [os.path.join(VERIF, "sim", "conv_embed.c")], os.path.join(workdir, "obj-rt-" + tag),
-                         list(cflags) + ["-w", "-I" + gendir, "-DASN_PDU_COLLECTION", '-DCONV_SRC="%s"' % os.path.join(gendir, "converter-example.c")])
+                         list(cflags) + MODULE_CFLAGS.get(modname, []) + ["-w", "-I" + gendir, "-DASN_PDU_COLLECTION", '-DCONV_SRC="%s"' % os.path.join(gendir, "converter-example.c")])
     exe = os.path.join(workdir, "simrun-" + tag)
     link_simrun(objs + list(harness_objs), exe, cflags)
     return exe
